@@ -827,21 +827,7 @@ def r132(ctx, rep, f, ev, cg, reach, O):
         # every lane is decoded by a decoder created for it: the receiver of analyze_alpide_frame comes from a
         # LaneAlpideFrameAnalyzer::new call inside the per-lane body (the closure, or the loop body) — a decoder that
         # lives across lanes carries state (fatal flag, counters, chip data) from one lane into the next
-        fn_ = ALP + "check_alpide_data_frame"
-        fresh = []
-        for q in [fn_] + sorted(q for q in f.fns if q.startswith(fn_ + "::{closure")):
-            bq = cg.body(q)
-            for bb, t, cal, c in bq.calls():
-                if cal and cal.endswith("::analyze_alpide_frame"):
-                    o = bq.origin(t["args"][0])
-                    while isinstance(o, tuple) and o and o[0] in ("ref", "proj"):
-                        o = o[1]
-                    is_new = isinstance(o, tuple) and o and o[0] == "call" and (o[1] or "").endswith("LaneAlpideFrameAnalyzer::<'a>::new") or \
-                        (isinstance(o, tuple) and o and o[0] == "call" and (o[1] or "").split("::")[-1] == "new" and "LaneAlpideFrameAnalyzer" in (o[1] or ""))
-                    per_lane = is_new and (q != fn_ or bq.on_cycle(o[3]))
-                    fresh.append((bool(per_lane), show_origin(o)[:70]))
-        rep.check(bool(fresh) and all(x for x, _ in fresh), "R13.2", "R13.2|decoder|fresh-per-lane", "each lane is decoded by a decoder created for that lane", WA,
-                  "the decoder handed to analyze_alpide_frame is not created inside the per-lane step (%s): its state (fatal flag, chip data, counters) leaks from one lane into the next" % [y for _, y in fresh])
+        fresh_decoder_per_lane(ctx, rep, f, cg, WA)
         errp = [x for x in pushes("err") if x == "sym(LANE_NUMBER)"]
         rep.check(len(errp) == 1 and "sym(MSGS)" in pushes("err"), "R13.2", "R13.2|lane-errors|collected", "a lane whose decode failed contributes its messages and its lane number once", WA,
                   "pushes in the decode-error case: %s" % [x[:60] for x in pushes("err")])
@@ -881,6 +867,25 @@ def lane_case_events(ev, f):
         out[case] = evs
     return out
 
+
+
+def fresh_decoder_per_lane(ctx, rep, f, cg, WA="fastpasta/src/analyze/validators/its/alpide.rs"):
+    """R13.2|decoder|fresh-per-lane (shared with C20: the custom chip checks of a lane rely on that lane's own decoder state)"""
+    fn_ = ALP + "check_alpide_data_frame"
+    fresh = []
+    for q in [fn_] + sorted(q for q in f.fns if q.startswith(fn_ + "::{closure")):
+        bq = cg.body(q)
+        for bb, t, cal, c in bq.calls():
+            if cal and cal.endswith("::analyze_alpide_frame"):
+                o = bq.origin(t["args"][0])
+                while isinstance(o, tuple) and o and o[0] in ("ref", "proj"):
+                    o = o[1]
+                is_new = isinstance(o, tuple) and o and o[0] == "call" and (o[1] or "").endswith("LaneAlpideFrameAnalyzer::<'a>::new") or \
+                    (isinstance(o, tuple) and o and o[0] == "call" and (o[1] or "").split("::")[-1] == "new" and "LaneAlpideFrameAnalyzer" in (o[1] or ""))
+                per_lane = is_new and (q != fn_ or bq.on_cycle(o[3]))
+                fresh.append((bool(per_lane), show_origin(o)[:70]))
+    rep.check(bool(fresh) and all(x for x, _ in fresh), "R13.2", "R13.2|decoder|fresh-per-lane", "each lane is decoded by a decoder created for that lane", WA,
+              "the decoder handed to analyze_alpide_frame is not created inside the per-lane step (%s): its state (fatal flag, chip data, counters) leaks from one lane into the next" % [y for _, y in fresh])
 
 
 def lane_check_codes(ev, f):
